@@ -296,4 +296,108 @@ theorem tr_step (s0 s s' : Sys) (m : Msg) (rest subs : List Msg) (inv : RInv s0 
     rw [h, b, t, k1.1, k1.2, k2.1, k2.2]
     exact ⟨trb, trs⟩
 
+
+/-- what a token emits on a Send / SendFrom: still messages (the mirror updates), then the hook -/
+theorem bsei_send_shape (t t' : Token) (b : Block) (rw : Res Addr) (sender : Addr) (tm : TokMsg) (ms : List Msg)
+    (hm : sendsToHub hubA tm = true) (hx : bseiExec t b bseiA rw hubA sender tm = .ok (t', ms)) :
+    ∃ pre x, ms = pre ++ [x] ∧ AllStill pre := by
+  cases tm with
+  | send c amt hook =>
+    simp only [bseiExec] at hx; exc_norm at hx; exc_split at hx
+    exact ⟨[_, _], _, rfl, AllStill.cons rfl (AllStill.cons rfl AllStill.nil)⟩
+  | sendFrom o c amt hook =>
+    simp only [bseiExec] at hx; exc_norm at hx; exc_split at hx
+    exact ⟨[_, _], _, rfl, AllStill.cons rfl (AllStill.cons rfl AllStill.nil)⟩
+  | _ => simp [sendsToHub] at hm
+
+theorem stsei_send_shape (t t' : Token) (b : Block) (sender : Addr) (tm : TokMsg) (ms : List Msg)
+    (hm : sendsToHub hubA tm = true) (hx : stseiExec t b stseiA hubA sender tm = .ok (t', ms)) :
+    ∃ pre x, ms = pre ++ [x] ∧ AllStill pre := by
+  cases tm with
+  | send c amt hook =>
+    simp only [stseiExec] at hx; exc_norm at hx; exc_split at hx
+    exact ⟨[], _, rfl, AllStill.nil⟩
+  | sendFrom o c amt hook =>
+    simp only [stseiExec] at hx; exc_norm at hx; exc_split at hx
+    exact ⟨[], _, rfl, AllStill.nil⟩
+  | _ => simp [sendsToHub] at hm
+
+/-- the supply after a Send / SendFrom is the supply before -/
+theorem send_supply (t t' : Token) (b : Block) (sender : Addr) (tm : TokMsg) (wf : t.WF)
+    (hm : sendsToHub hubA tm = true) (hc : t.core b sender tm = .ok t') : t'.supply = t.supply := by
+  have cs := (C18_core_step _ _ _ _ _ wf hc).2.2.2
+  cases tm with
+  | send c amt hook => exact cs
+  | sendFrom o c amt hook => exact cs.1
+  | _ => simp [sendsToHub] at hm
+
+theorem phase_step (s0 s s' : Sys) (m : Msg) (rest subs : List Msg) (inv : RInv s0 s (m :: rest))
+    (hx : s.handle m = .ok (s', subs)) : Fresh s0 s' (subs ++ rest) ∨ NoTrg (subs ++ rest) := by
+  by_cases hst : Still m = true
+  · have hs := handle_still s s' m subs hst hx
+    rcases inv.phase with f | nt
+    · exact Or.inl (f.next_still hst hs.1 hs.2)
+    · exact Or.inr (NoTrg.append (NoTrg.of_still hs.2) nt.tail)
+  · have hst' : Still m = false := by simpa using hst
+    -- the rest of the queue holds no trigger, in either phase
+    have hrest : NoTrg rest := by
+      rcases inv.phase with f | nt
+      · exact (f.head_not_still hst').2.2
+      · exact nt.tail
+    by_cases htr : Trg m = true
+    · -- a trigger at the head: the queue is fresh
+      have fr : Fresh s0 s (m :: rest) := by
+        rcases inv.phase with f | nt
+        · exact f
+        · have := nt _ (List.mem_cons_self ..)
+          rw [htr] at this; cases this
+      obtain ⟨sp, nf, _⟩ := fr.head_not_still hst'
+      cases handle_touch s s' m subs hx with
+      | none h hm hs hb =>
+        refine Or.inr (NoTrg.append ?_ hrest)
+        intro x hx'
+        obtain ⟨t, d, a, he⟩ := hb x hx'
+        subst he; rfl
+      | hub s1 sender funds hm heq _ _ _ hx' b t r d g =>
+        exact Or.inr (NoTrg.append (hubExec_noTrg _ _ _ _ _ _ _ hx') hrest)
+      | bsei s1 sender funds tm heq h1 hx' h t r d g =>
+        subst heq
+        have hsend : sendsToHub hubA tm = true := by
+          cases tm <;> first | (simp [Trg] at htr; done) | (simp only [Trg, beq_iff_eq] at htr; simp [sendsToHub, htr])
+        obtain ⟨pre, x, hms, hpre⟩ := bsei_send_shape _ _ _ _ _ _ _ hsend hx'
+        have st := C18_bsei_step _ _ _ _ _ _ _ _ _ inv.bwf hx'
+        have hsup := send_supply _ _ _ _ _ inv.bwf hsend st.1
+        have nfs := subs_noflow s s' _ _ _ _ subs hx internal_ne.1
+        left
+        refine ⟨⟨by rw [h]; exact sp.bBond, by rw [h]; exact sp.sBond, by rw [h]; exact sp.reqB, by rw [h]; exact sp.reqS,
+          by rw [hsup]; exact sp.bSupply, by rw [t]; exact sp.sSupply⟩, NoFlow.append nfs nf.tail, pre, x :: rest, ?_, hpre, ?_⟩
+        · rw [hms]; simp
+        · simpa using hrest
+      | stsei blk sender funds tm heq hx' h b r d g =>
+        subst heq
+        have hsend : sendsToHub hubA tm = true := by
+          cases tm <;> first | (simp [Trg] at htr; done) | (simp only [Trg, beq_iff_eq] at htr; simp [sendsToHub, htr])
+        obtain ⟨pre, x, hms, hpre⟩ := stsei_send_shape _ _ _ _ _ _ hsend hx'
+        have st := C18_stsei_step _ _ _ _ _ _ _ _ inv.swf hx'
+        have hsup := send_supply _ _ _ _ _ inv.swf hsend st.1
+        have nfs := subs_noflow s s' _ _ _ _ subs hx internal_ne.2.1
+        left
+        refine ⟨⟨by rw [h]; exact sp.bBond, by rw [h]; exact sp.sBond, by rw [h]; exact sp.reqB, by rw [h]; exact sp.reqS,
+          by rw [b]; exact sp.bSupply, by rw [hsup]; exact sp.sSupply⟩, NoFlow.append nfs nf.tail, pre, x :: rest, ?_, hpre, ?_⟩
+        · rw [hms]; simp
+        · simpa using hrest
+      | reward s1 sender funds rm heq _ _ _ hx' h b t d g => subst heq; simp [Trg] at htr
+      | disp env sender funds dm heq _ _ hx' h b t r g => subst heq; simp [Trg] at htr
+      | reg s1 sender funds rm heq h1 _ _ hx' h b t r d => subst heq; simp [Trg] at htr
+    · have htr' : Trg m = false := by simpa using htr
+      exact Or.inr (NoTrg.append (handle_noTrg s s' m subs htr' hx) hrest)
+
+
+/-- **one message**: the invariant is carried from `m :: rest` to what `m` emits followed by `rest` -/
+theorem RInv.step (s0 s s' : Sys) (m : Msg) (rest subs : List Msg) (hb0 : s0.hub.bBond + s0.hub.sBond ≠ 0)
+    (inv : RInv s0 s (m :: rest)) (hx : s.handle m = .ok (s', subs)) : RInv s0 s' (subs ++ rest) := by
+  obtain ⟨a1, a2, a3, a4, a5, a6⟩ := static_step s s' m subs hx inv.btok inv.stok inv.bwf inv.swf inv.bhub inv.shub
+  have tr := tr_step s0 s s' m rest subs inv hb0 hx
+  exact ⟨BookInv.step s s' m rest subs inv.book hx, a1, a2, a3, a4, a5, a6, tr.1, tr.2, phase_step s0 s s' m rest subs inv hx⟩
+
 end Krp
